@@ -18,7 +18,7 @@ PROPERTY = "C15"
 
 META = {
     "bounds": {
-        "quick": "(a) every 8-bit string of length <= 3 through parse_as_ast and of length <= 2 through assemble_string_with_emitter; (b) every prefix of 37 template programs + the 2 sample sources followed by 1 symbolic character; (c) token sequences of length <= 3 over all token types x 26 token texts; (d) .for bounds and recursive-macro depth in [-2, 8]; (e) .include_ips files; (f) 11 templates + a loop with a symbolic count applying a macro and declaring a named scope, assembled with the symbol dump on",
+        "quick": "(a) every 8-bit string of length <= 3 through parse_as_ast and of length <= 2 through assemble_string_with_emitter; (b) every prefix of 37 template programs + the 2 sample sources followed by 1 symbolic character; (c) token sequences of length <= 3 over all token types x 26 token texts; (d) .for bounds and recursive-macro depth in [-2, 8]; (e) .include_ips files; (f) 11 templates + a loop with a symbolic count applying a macro and declaring a named scope, assembled with the symbol dump on; (g) the command line with every -D value of <= 2 arbitrary characters",
         "thorough": "(a) length <= 4 (parse) / <= 3 (assemble); (b) 2 symbolic characters; (c) length <= 4; (d) same",
     },
     "outside": ["arbitrary texts longer than the bound", "code points above 255", "dead scanner states unreachable from the public API (lex_macro_args_def)"],
@@ -128,6 +128,12 @@ def jobs(tier, seed):
     # with loops, macros, blocks and named scopes nested in one another
     for ti in DUMP_TEMPLATES:
         out.append({"id": f"dump/{ti:02d}", "fam": "dump", "text": TEMPLATES[ti]})
+    # the command line: every -D value of <= 2 arbitrary 8-bit characters (and a digit followed by one) terminates
+    for n in (0, 1, 2):
+        parts = PARTS if n >= 2 else 1
+        for k in range(parts):
+            out.append({"id": f"cli-define/{n}/{k:02d}", "fam": "define", "n": n, "part": k, "parts": parts})
+    out.append({"id": "cli-define/digit+1/00", "fam": "define", "n": 1, "part": 0, "parts": 1, "lead": "7"})
     out.append({"id": "expand/for", "fam": "for"})
     out.append({"id": "expand/nested-for", "fam": "for2"})
     out.append({"id": "expand/recursive-macro", "fam": "rec"})
@@ -220,6 +226,39 @@ def run(spec, cx):
             return "parsed"
 
         return guarded(spec["k"] * 4, parse)
+    if fam == "define":
+        import argparse
+        import logging
+        import types
+        from pathlib import Path
+
+        from harness.common import virtual_files
+
+        chars = [ord(c) for c in spec.get("lead", "")]
+        for i in range(spec["n"]):
+            dom = _first_domain(spec["part"], spec["parts"]) if i == 0 else None
+            chars.append(cx.char(f"c{i}", dom))
+        define = cx.string([ord(c) for c in "v="] + chars)
+
+        def cli_run():
+            import a816.cli as cli
+
+            ns = types.SimpleNamespace(verbose=False, output_file=Path("out.bin"), input_file=Path("in.s"), format="ips", mapping="low",
+                                       copier_header=False, dump_symbols=False, defines=[define])
+            orig_parse, orig_basic = argparse.ArgumentParser.parse_args, logging.basicConfig
+            argparse.ArgumentParser.parse_args = lambda self, *a, **k: ns
+            logging.basicConfig = lambda *a, **k: None
+            try:
+                try:
+                    cli.cli_main()
+                    return "returned"
+                except SystemExit:
+                    return "exit"
+            finally:
+                argparse.ArgumentParser.parse_args, logging.basicConfig = orig_parse, orig_basic
+
+        with virtual_files(cx, {"in.s": "*=0x8000\nnop\n"}, outputs=["out.bin"]):
+            return guarded(len(chars) + 20, cli_run)
     if fam == "dump":
         from harness.common import virtual_files
 
